@@ -1048,7 +1048,7 @@ func explore(c Case) (evid.Info, error) {
 
 func TestC19Enumerate(t *testing.T) {
 	evid.R.Extra("exhaustive_crash_points_per_case", true)
-	n := evid.R.N(32, 25)
+	n := evid.R.N(26, 25)
 	if v, err := strconv.Atoi(os.Getenv("C19_N")); err == nil && v > 0 {
 		n = v // development aid
 	}
